@@ -24,11 +24,18 @@ def orElse (a : Option Str) (b : Option Str) : Option Str :=
   | some v => some v
   | none => b
 
+/-- what the interpolation grammar (C07's specification, `Template.evalL`) says a value evaluates to under `look`;
+    a value whose evaluation is an error (`${X:?msg}` unsatisfied) makes the whole file fail and never gets here -/
+def specValue (look : Look) (v : List Seg) : Str :=
+  match CV.Template.evalL look v with
+  | .ok s => s
+  | .error _ => []
+
 /-- value of `k` after the lines of one file, listed LAST LINE FIRST; `base` = what was there before the file -/
 def fileValRevFrom (look : Look) (base : Key → Option Str) : List Line → Key → Option Str
   | [], k => base k
   | .assign k' v :: earlier, k =>
-    if k' = k then some (evalSegs (fun n => orElse (look n) (fileValRevFrom look base earlier n)) v)
+    if k' = k then some (specValue (fun n => orElse (look n) (fileValRevFrom look base earlier n)) v)
     else fileValRevFrom look base earlier k
   | .bare k' :: earlier, k =>
     if k' = k then orElse (look k) (fileValRevFrom look base earlier k)
@@ -74,6 +81,12 @@ def labelFilesVal (files : List (List Line)) (k : Key) : Option Str :=
 
 def finalLabel (files : List (List Line)) (labels : List (Key × Str)) (k : Key) : Option Str :=
   orElse (lookup k labels) (labelFilesVal files k)
+
+/-- every value in the file is an unambiguous template (`Template.WF`: its rendering parses back to it) -/
+def WFLines (ls : List Line) : Prop := ∀ k v, Line.assign k v ∈ ls → CV.Template.WF v = true
+
+/-- every regular file of the file system is well-formed in that sense -/
+def WFFS (fs : FS) : Prop := ∀ p ls, fs p = some (.file ls) → WFLines ls
 
 /-- no file exists at path `p`: the path is absent, or one of its parents is a regular file -/
 def Missing (fs : FS) (p : Str) : Prop := fs p = none ∨ fs p = some .notdir
